@@ -971,6 +971,24 @@ impl<'a> Gen<'a> {
                 _ => {}
             }
         }
+        if self.cfg.dyn_generics && self.cfg.traits && self.rng.chance(1, 4) {
+            // a generic function with a `dyn Show` parameter / a type parameter instantiated at `dyn Show`
+            // (Sem has no type key for an instance of a generic type behind `dyn`: monomorphic impls only)
+            let st = self.showable_ty();
+            let st = if matches!(st, T::Param(_) | T::Bx(_) | T::Opt(_)) { T::I32 } else { st };
+            let a = self.expr(&st, scope, d, pre);
+            let dv = self.fresh("dy");
+            let tv = self.fresh("sv");
+            write!(pre, "let {}: {} = {}; let {}: dyn Show = {}; ", tv, self.ty_text(&st), a, dv, tv).unwrap();
+            let e = self.expr(t, scope, d, pre);
+            return Some(if self.rng.chance(1, 2) {
+                self.feat("g-dyn-param");
+                format!("lab({}, {})", dv, e)
+            } else {
+                self.feat("g-dyn-instance");
+                format!("konst({}, {})", e, dv)
+            });
+        }
         // functions polymorphic in the result type
         let other = self.rich_ty(1);
         let k = self.rng.below(if self.cfg.vec_generics { 17 } else { 16 });
@@ -1140,6 +1158,8 @@ impl Show for Opt[bool] { fn show(self: Opt[bool]) -> string { match self { Opt:
 fn show_pair[A: Show, B: Show](a: A, b: B) -> string { show_twice(a) + Show::show(b) }
 fn show_opt[T: Show](o: Opt[T]) -> string { match o { Opt::Som(x) => { let y: T = x; Show::show(y) }, Opt::Non => "-" } }
 fn show_pick[T: Show](c: bool, a: T, b: T) -> string { let r: T = pick(c, a, b); Show::show(r) }
+fn lab[T](d: dyn Show, x: T) -> T { let _ = string_println(Show::show(d)); x }
+fn konst[A, B](a: A, b: B) -> A { a }
 fn show_lst[T: Show](l: Lst[T]) -> string { match l { Lst::Nil => ".", Lst::Cons(h, t) => { let y: T = h; show_twice(y) + show_lst(t) } } }
 "#,
             );
